@@ -3,7 +3,7 @@ From QF Require Import Base.Prelude.
 From QF Require Import Model.Utf8 Model.CsvSpec Model.CsvWrite Model.Json Model.Observe Proofs.JsonProofs.
 (* Model.Frame last: [frame], [frame_len] mean the physical frame of Model/Frame.v *)
 From QF Require Import Model.Frame Model.Filter Model.Ops Model.TableSpec Proofs.EqualsProofs.
-From QF Require Import Proofs.ObserveProofs.
+From QF Require Import Proofs.EnumProofs Proofs.ObserveProofs.
 Local Open Scope nat_scope.
 
 (* Column.Equals reads the two columns through their OWN row indexes and answers exactly "same column type and
@@ -219,18 +219,21 @@ Print Assumptions C09_to_json.
 
 (* [rebuild f] (Model/Observe.v) = New(data, ColumnOrder(names of f), Enums(value lists of f's enum columns))
    where data maps every column name to the Slice() of the typed view of that name ([]int, []float64, []bool,
-   []*string).  For every well-formed frame with unique legal column names: New accepts, the new frame has no
-   Err, the identity index, EXACTLY the logical table of f - and therefore Equals holds in both directions.
-   (Enum ranks and value tables of the rebuilt frame may differ from f's: only the strings count.) *)
+   []*string).  For every well-formed frame with unique legal column names whose enum columns have value tables
+   without a repeated value (enum_tables_nodup: what every column built by the enum factory has, C17_table_nodup;
+   New rejects an Enums entry that lists a value twice, C17_duplicate_declaration_rejected): New accepts, the new
+   frame has no Err, the identity index, EXACTLY the logical table of f - and therefore Equals holds in both
+   directions.  (Enum ranks and value tables of the rebuilt frame may differ from f's: only the strings count.) *)
 Theorem C09_rebuild f t :
   wf_frame f = true -> abs f = Ok t -> NoDup (col_names f) -> forallb check_name (col_names f) = true ->
+  enum_tables_nodup f = true ->
   exists g, rebuild f = Ok g /\ ferr g = false /\ ix g = seq 0 (length (trows t)) /\ abs g = Ok t
             /\ equals g f = Ok true /\ equals f g = Ok true.
 Proof. exact (rebuild_spec f t). Qed.
 Print Assumptions C09_rebuild.
 
 Example C09_rebuild_example :
-  wf_frame ex_f = true /\ forallb check_name (col_names ex_f) = true
+  wf_frame ex_f = true /\ forallb check_name (col_names ex_f) = true /\ enum_tables_nodup ex_f = true
   /\ (do g <- rebuild ex_f; equals g ex_f) = Ok true
   /\ (do g <- rebuild ex_f; Ok (cols g))
      = Ok [([65%N], FCol [0x3FF0000000000000; 0x7FF8000000000001; 0]%N); ([66%N], SCol [Some [97%N]; None; Some []]);
